@@ -123,9 +123,13 @@ impl TryFrom<&str> for SnmpOid<'_> {
         // Subelements iterator
         let mut iter = OidSubelementIterator::new(value);
         // Get first two subelements
-        let first = iter.next().ok_or(SnmpError::InvalidData)??.min(6) as u8;
-        let second = iter.next().ok_or(SnmpError::InvalidData)??.min(39) as u8;
-        vec.push(40 * first + second);
+        let first = iter.next().ok_or(SnmpError::InvalidData)??;
+        let second = iter.next().ok_or(SnmpError::InvalidData)??;
+        if first > 2 || second > 39 {
+            // Cannot be packed into the leading octet
+            return Err(SnmpError::InvalidData);
+        }
+        vec.push((40 * first + second) as u8);
         // Push other elements
         for sr in iter {
             let sub_id = sr?;
